@@ -8,7 +8,7 @@ REPO = os.environ.get('VF_REPO', '/repo')
 
 def run_all():
     from vflib import core, props
-    import importlib
+    import importlib, importlib.util, importlib.machinery
     sys.argv = ['vf']
     spec = importlib.util.spec_from_loader('vfmain', importlib.machinery.SourceFileLoader('vfmain', os.path.join(VERIF, 'vf')))
     vfmain = importlib.util.module_from_spec(spec)
@@ -51,6 +51,9 @@ def main():
             subprocess.run(['git', '-C', REPO, 'checkout', '--', '.'])
         prop = s.split('-')[0]
         new = {}
+        if '_error' in got or '_error' in base:
+            print('%-8s ENGINE ERROR %s' % (s, str(got.get('_error') or base.get('_error'))[:300]))
+            continue
         for pid, v in got.items():
             for k, d in v.items():
                 if k not in base.get(pid, {}):
@@ -61,6 +64,7 @@ def main():
             for k, d in list(v.items())[:3]:
                 print('           %s %s :: %s' % (pid, k, d[:140].replace('\n', ' ')))
         res[s] = new
+    os.makedirs(os.environ.get('VF_CACHE') or os.path.join(VERIF, '.cache'), exist_ok=True)
     json.dump(res, open(os.path.join(os.environ.get('VF_CACHE') or os.path.join(VERIF, '.cache'), 'seedcheck.json'), 'w'), indent=1)
 
 if __name__ == '__main__':
